@@ -43,7 +43,47 @@ pub fn knobs_for(profile: &str) -> Knobs {
     k
 }
 
+/// C02: untyped programs over a context holding values of every kind.
+pub fn one_case_untyped(id: usize, rng: &mut Rng, depth: usize) -> Option<J> {
+    use crate::gen_untyped::U;
+    let names = ["vb1", "vi1", "vu1", "vd1", "vs1", "vy1", "vl1", "vm1", "vdur", "vts", "vfn", "vn", "va1", "va2"];
+    let mut vars: Vec<(String, Value)> = vec![];
+    for n in names.iter() {
+        let v = match *n {
+            "vb1" => Value::Bool(rng.chance(1, 2)),
+            "vi1" => gen::gen_value(rng, &T::Int, 0),
+            "vu1" => gen::gen_value(rng, &T::Uint, 0),
+            "vs1" => gen::gen_value(rng, &T::Str, 0),
+            "vy1" => gen::gen_value(rng, &T::Bytes, 0),
+            "vn" => Value::Null,
+            "vfn" => Value::Function(std::sync::Arc::new("size".to_string()), None),
+            _ => loop {
+                let v = gen::gen_any_value(rng, 2, true);
+                let ok = match (*n, &v) {
+                    ("vd1", Value::Float(_)) | ("vl1", Value::List(_)) | ("vm1", Value::Map(_)) | ("vdur", Value::Duration(_)) | ("vts", Value::Timestamp(_)) => true,
+                    ("va1", _) | ("va2", _) => true,
+                    _ => false,
+                };
+                if ok {
+                    break v;
+                }
+            },
+        };
+        vars.push((n.to_string(), v));
+    }
+    let mut pool: Vec<String> = names.iter().map(|s| s.to_string()).collect();
+    pool.push("undeclared_v".to_string());
+    let fns: Vec<String> = crate::zoo::ZOO_NAMES.iter().map(|s| s.to_string()).chain(std::iter::once("nofn".to_string())).collect();
+    let mut u = U { rng, vars: pool, fns, macro_vars: vec!["x".into(), "y".into(), "vi1".into()], used: vec![], tag: 0, wrap_pct: 8, structs: true };
+    let d = 1 + u.rng.below(depth.max(1));
+    let src = u.expr(d);
+    case_for(id, &src, &vars)
+}
+
 pub fn one_case(id: usize, rng: &mut Rng, profile: &str, depth: usize) -> Option<J> {
+    if profile == "c02" {
+        return one_case_untyped(id, rng, if depth > 0 { depth } else { 6 });
+    }
     let ctx = gen::gen_context(rng, 4);
     let knobs = knobs_for(profile);
     let ty = match (profile, rng.below(8)) {
